@@ -29,7 +29,7 @@ for d in sorted(glob.glob(os.path.join(VERIF, "seeded", "*", ""))):
     if os.path.exists(notes):
         meta["what_it_needs_to_manifest"] = " ".join(open(notes).read().split())[:700]
     runf = os.path.join(VERIF, "work", "iso", name + ".run")
-    if os.path.exists(runf):
+    if os.path.exists(runf) and "DETECTED-BY" in open(runf).read():      # (a run still in progress has no summary line yet)
         det, lines = [], {}
         for l in open(runf):
             m = re.match(r"(C\d+) rc=(\d+) (.*)", l)
@@ -57,6 +57,29 @@ for name, pid, c, det, note, title in rows:
     out.append("| %s | %s | %s | %s | %s | %s |" % (name, title, "yes" if c else "NO", "yes" if pid in det else "**no**",
                                                    ", ".join(x for x in det if x != pid) or "—", note.replace("|", "/")))
 table = "\n".join(out)
+# harmless changes
+BN = {}
+try:
+    BN = json.load(open(os.path.join(VERIF, "benign", "NOTES.json")))
+except Exception:
+    pass
+brows = ["| harmless change | what it is | checks that raised an alarm (final) | note |", "|---|---|---|---|"]
+for d in sorted(glob.glob(os.path.join(VERIF, "benign", "*", ""))):
+    name = os.path.basename(d.rstrip("/"))
+    if not os.path.exists(os.path.join(d, "patch.diff")):
+        continue
+    title = ""
+    nf = os.path.join(d, "notes.txt")
+    if os.path.exists(nf):
+        title = re.sub(r"^b\d\s*[-—]+\s*", "", open(nf).readline().strip())[:150].replace("|", "/")
+    runf = os.path.join(VERIF, "work", "iso", "ben_" + name + ".run")
+    det = None
+    if os.path.exists(runf) and "DETECTED-BY" in open(runf).read():
+        det = [m.group(1) for m in (re.match(r"(C\d+) rc=(\d+)", l) for l in open(runf)) if m and m.group(2) != "0"]
+    res = {"name": name, "alarms": det, "note": BN.get(name, "")}
+    json.dump(res, open(os.path.join(d, "result.json"), "w"), indent=1)
+    brows.append("| %s | %s | %s | %s |" % (name, title, "not run" if det is None else (", ".join(det) or "none"), BN.get(name, "").replace("|", "/")))
+btable = "\n".join(brows)
 if "--design" in sys.argv:
     p = os.path.join(VERIF, "DESIGN.md")
     s = open(p).read()
@@ -65,6 +88,11 @@ if "--design" in sys.argv:
         s = s[:s.index(b) + len(b)] + "\n" + table + "\n" + s[s.index(e):]
     else:
         s = s.replace("SEEDED_TABLE_PLACEHOLDER", b + "\n" + table + "\n" + e)
+    b2, e2 = "<!-- BENIGN_TABLE_BEGIN -->", "<!-- BENIGN_TABLE_END -->"
+    if b2 in s:
+        s = s[:s.index(b2) + len(b2)] + "\n" + btable + "\n" + s[s.index(e2):]
     open(p, "w").write(s)
 else:
     print(table)
+    print()
+    print(btable)
